@@ -159,6 +159,8 @@ func init() {
 				probe("pc3basenoslash", "base-without-leading-slash", gen.RBaseNoSlash, gen.FBasePath),
 				probe("pc3trail", "trailing-slash-paths", gen.FTrailingSlash, gen.FBasePath),
 				probe("pc3trailnobase", "trailing-slash-paths-no-base", gen.FTrailingSlash),
+				probe("pc3renamed", "one-path-shape-two-variable-names", gen.RSharedRenamed, gen.FPathVars, gen.FBasePath),
+				probe("pc3renamednobase", "one-path-shape-two-variable-names-no-base", gen.RSharedRenamed, gen.FPathVars),
 			}
 			return ws
 		},
